@@ -360,6 +360,18 @@ func (p *Program) CallsIn(fn *ssa.Function) []*CallSite {
 	return out
 }
 
+// CallsInOwn is CallsIn restricted to the function's own instructions (not those copied in from inlined helpers):
+// whole-program enumerations use it so that every call site is seen exactly once, in the function that contains it.
+func (p *Program) CallsInOwn(fn *ssa.Function) []*CallSite {
+	var out []*CallSite
+	for _, cs := range p.CallsIn(fn) {
+		if !p.IsClone(cs.Ins) {
+			out = append(out, cs)
+		}
+	}
+	return out
+}
+
 // ArgExprs returns canonical expressions for receiver (if any) + args of a call site.
 func (p *Program) ArgExprs(cs *CallSite) []*Expr {
 	x := p.Ex(cs.Fn)
